@@ -765,6 +765,12 @@ func (db *DB) buildSortedSetIdx(bucket string, r *Record) error {
 		db.SortedSetIdx[bucket] = zset.New()
 	}
 
+	// as for sets and lists: without the entry (index modes that do not keep
+	// it) the sorted set cannot be rebuilt; report it instead of dereferencing nil
+	if r.E == nil {
+		return ErrEntryIdxModeOpt
+	}
+
 	if r.H.meta.Flag == DataZAddFlag {
 		keyAndScore := strings.Split(string(r.E.Key), SeparatorForZSetKey)
 		if len(keyAndScore) == 2 {
